@@ -59,8 +59,8 @@ for k, v in pass1.items():
     if v[0] == "CAUGHT":
         c[0] += 1
 p1txt = "; ".join(f"round {r}: {c[0]} of {c[1]}" for r, c in sorted(per.items()))
-out += [f"First pass (any of the 20 checks, as they were when that round's agents started; in rounds 6-8 only the check of the agent's property was run): {p1txt}. Now: {n_now} of {len(rows)} caught, {n_own} of them by the check of the property the agent was given.",
-"Still missed, and not claimed: C05-r2m1 alters how NaN compares (NaN from `inf - inf`, or the string 'NaN') and C05-r8m2 reports a quotient that overflows (`1e308 / 1e-10`) as a division by zero - non-finite values are [P] throughout (section 3.1) because no property statement fixes them; C02-r8m1 lets a `-r` selector keep its own variables from one value to the next, the territory of the open finding K-SELSCOPE (no statement fixes the selector's private state; `-r E` = `BEGINFILE { $ = E }` would even demand it); C06-r8m2 lowers the parser's nesting limit to 4 096, inside the band in which C20 accepts either outcome for program nesting - the fully parenthesised form of a 6 000-term sum is then refused, as the one of a 250 000-term sum is on the unchanged tree.",
+out += [f"First pass (any of the 20 checks, as they were when that round's agents started; in rounds 6-9 only the check of the agent's property, in round 9 with one neighbour, was run): {p1txt}. Now: {n_now} of {len(rows)} caught, {n_own} of them by the check of the property the agent was given.",
+"Still missed, and not claimed: C05-r2m1 alters how NaN compares (NaN from `inf - inf`, or the string 'NaN') and C05-r8m2 reports a quotient that overflows (`1e308 / 1e-10`) as a division by zero - non-finite values are [P] throughout (section 3.1) because no property statement fixes them; C02-r8m1 lets a `-r` selector keep its own variables from one value to the next, the territory of the open finding K-SELSCOPE (no statement fixes the selector's private state; `-r E` = `BEGINFILE { $ = E }` would even demand it); C02-r9m1 makes a `next` in a BEGIN / END / BEGINFILE / ENDFILE rule drop the later rules of that kind - what `next` does outside the pattern rules is fixed by no statement (pinned); C06-r8m2 lowers the parser's nesting limit to 4 096, inside the band in which C20 accepts either outcome for program nesting - the fully parenthesised form of a 6 000-term sum is then refused, as the one of a 250 000-term sum is on the unchanged tree.",
 "Five further changes are kept under `seeded/obsolete/` with a note each: C09-r6m2 weakened a helper (`existingSpeculative`) that repair 60de3d8 then removed altogether; C04-r3m1 manifested only through the array-length defect K-ALIAS and is harmless since that was repaired; C01-m2 (a Go panic of integer `%`) and C14-r2m2 (a per-value slice of roots that was never reset) perverted code that the sixth round's repairs replaced (626a211, 3a6b155); C07-r6m2 changes what `next` does in BEGIN / END / BEGINFILE / ENDFILE rules, which no statement fixes (pinned, reported as a NOTE).",
 "The sixth round's repairs of /repo touched lines under 39 stored changes (and the three repairs that followed the review under 3 more, ported by hand); 3 re-applied by three-way merge, 36 were re-written for the new tree by six sub-agents (given the old patch, its note and demonstration and a scratch clone; `patch.before-c9e43cc.diff` keeps the original) and re-confirmed by `tools/ingest_ported.sh`; one demonstration (C10-m2) used `false++`, which is a syntax error since 12c2390, and now stores through a match binding instead.",
 "For round 2 the first pass was run afterwards against the commit that preceded the round (a3da53e), because I had started strengthening from the agents' reports before running anything; for rounds 1 and 3 it was run before any change.", ""]
@@ -84,6 +84,8 @@ out += ["What the misses of the first round had in common, and what was added (s
 "Seventh round (written against the final tree 0197c53, same brief as before but without the list of earlier changes; 5 of 40 missed at first by the check of their property): a conversion of digit strings through int64 that wraps for 19-digit numerals (C05); a parser that re-balances runs of 16 and more `+` / `*` (C06); `next` forgotten in the explicit decrement that replaced a `defer` (C08; caught at once by C07's long runs, but C08's histories stopped at 10 000 elements); `%` by a divisor that truncates to zero slipping through a merged `== 0` test (C11; C05 catches the value, C11 had no such fault kind); `pluck` storing the receiver's own cells (C16).",
 "",
 "Eighth round (started after the seventh round's additions, with the one-line summaries of all 275 earlier changes and the request for other mechanisms; 24 of 40 missed at first by the check of their property - the owning check alone was run, several of these are caught by a neighbouring check, see the table): *features and fast paths nobody asked for* - regex literals as case patterns compiled with `MustCompile` (C01), a one-line writer for scalar arrays that drops the marshalling error (C04), a printer depth guard (C17, C20), a format-only printf fast path, a subscript fast path for `a[-x]` that swallows the rest of the subscript (C06), implicit line joining inside brackets (C13), a NUL byte taken for the end of the text (C11); *state kept too long* - a constant array literal built once (C15), the frame table of a match case kept on the case node and overwritten by recursion (C19), an auto-fill budget per process (C10), no frame at all for a case that binds nothing (C08); *sizes* - 65 536 pieces (C16), width texts of seven characters (C18), reused token slots that only show for an even token count (C12). Two changes are not counted as breaks: C02-r8m1 lets a selector keep its own variables from one value to the next, which is what `-r E` = `BEGINFILE { $ = E }` (C14) would give and what the open finding K-SELSCOPE is about - no statement fixes the selector's private state; C05-r8m2 reports `1e308 / 1e-10` as a division by zero, which concerns non-finite results, pinned like C05-r2m1.",
+"",
+"Ninth round (six properties only - C02, C03, C09, C12, C14, C20 - one change each, in the last hour; numeric limits and non-finite numbers excluded by the brief; 2 of 6 caught at first): a self tail call that re-uses its frame, so that `return r(n + 1)` never reaches the call-depth limit - my recursion cases had a budget of 2 000 000 000 statements and simply never came back (C20: a recursion still running after 100 000 000 statements is now reported as not refused); a failed write of the program's own output hidden when `-o FILE` is given (C14: two more full-device paths); the key of a missing member kept as text and read back as an index, so that `o.m['2'] = 7` creates an array (C09: 5 hand-computed programs). C02-r9m1 changes what `next` does in BEGIN / END / BEGINFILE / ENDFILE rules - fixed by no statement, not claimed (as C07-r6m2).",
 "",
 "### 8.2 The reverse of every repair",
 "",
@@ -128,7 +130,7 @@ out += ["```", "",
 "### 8.4 Runs on the unchanged tree at the end of the work", "",
 "Against /repo at 0197c53 (54 `fix:` commits after the pinned commit; the 279 tests pass with the hooks off): the quick tier of all twenty checks at seeds 1-27 (`tools/sweep.sh`), the thorough tier at seed 1 (twice: before and after the last three repairs), seeds 2, 3 and 4 (`tools/thorough_all.sh`, 50-70 minutes each) - the six KNOWN-FINDING lines of K-SELSCOPE from C14 in every run. These runs raised two alarms on the unchanged tree, both false and both from rules added in the last hours (section 7.1): C09 in the thorough tier (corrected in the model) and C01 at seed 8 (the rule was dropped); after the corrections the affected runs were repeated and are silent. The committed evidence files are from the quick tier at seed 1.",
 "",
-"Last session (seventh and eighth round of seeded changes, section 8.1): before anything was added, the quick tier of all twenty checks at seeds 28-36 (silent). After the additions: every changed check on the unchanged tree at seeds 1-9 (seventh round's five checks) and 1-6 (the sixteen checks changed after the eighth round), the quick tier of all twenty checks at seed 1 (the committed evidence) and at seeds 7-14 in the background (`vp run -- tools/sweep.sh`), the thorough tier of the twelve structurally changed checks at seed 1, and the six benign variants against the sixteen changed checks (all SILENT). No alarm on the unchanged tree; what was corrected before committing is in section 7.1.",
+"Last session (seventh and eighth round of seeded changes, section 8.1): before anything was added, the quick tier of all twenty checks at seeds 28-36 (silent). After the additions: every changed check on the unchanged tree at seeds 1-9 (seventh round's five checks) and 1-6 (the sixteen checks changed after the eighth round), the quick tier of all twenty checks at seed 1 (the committed evidence) and at seeds 7-14 in the background (`vp run -- tools/sweep.sh`), the thorough tier of the twelve structurally changed checks at seed 1, and the six benign variants against the sixteen changed checks (all SILENT). The three checks changed after the ninth (partial) round - C09, C14, C20 - were then run on the unchanged tree at seeds 1-5. No alarm on the unchanged tree; what was corrected before committing is in section 7.1.",
 ""]
 d = open(os.path.join(R, "DESIGN.md")).read()
 a, b = "<!-- SECTION8 BEGIN -->", "<!-- SECTION8 END -->"
